@@ -443,6 +443,9 @@ inline void planRemoveAt(TPlan plan, Inst& in, size_t idx, const char* where) {
 	if (!cons) w.V("C10", "plan-first-last-bool-inconsistent", fmt("%s: after remove first()/last()/bool disagree with iteration %s", where, planStr(now).c_str()));
 	if (!samePlan(now, in.plan))
 		w.V("C10", "plan-after-iterator-remove", fmt("%s: after removing position %zu of %s the plan iterates as %s, expected %s; %s", where, idx, planStr(before).c_str(), planStr(now).c_str(), planStr(in.plan).c_str(), w.tail().c_str()));
+	// C08: tasks that neither fired nor were removed by the program stay in the plan, in their order
+	if (!samePlan(now, in.plan) && !samePlan(now, before))
+		w.V("C08", "unfired-tasks-left-or-reordered|iterator-remove", fmt("%s: removing position %zu of %s left %s: tasks that did not fire and were not removed are gone or out of order (expected %s); %s", where, idx, planStr(before).c_str(), planStr(now).c_str(), planStr(in.plan).c_str(), w.tail().c_str()));
 	in.plan = now;
 	w.stats.add("plan_iterator_removes");
 	w.flags |= F_PLANEDIT;
